@@ -1,0 +1,3 @@
+//! Verification hook (feature `verif-hooks`, test builds only): replay tests kept in the
+//! verification directory are compiled inside this module so that they can reach crate-private items.
+include!(concat!(env!("VERIF_DIR"), "/replays/connector.rs"));
